@@ -646,6 +646,12 @@ func (c *Ctx) judgeFailureRegion(fn *ssa.Function, call *ssa.Call, e ssa.Value, 
 			}
 			ev := r.Results[len(r.Results)-1]
 			if !c.errOperandOK(fn, r, ev, e, seen, tested) {
+				// a read-until-full loop: the return lies behind the test that the running total
+				// of the counts has reached the length of the buffer - everything asked for was
+				// delivered, which makes the error of the last call irrelevant (io.ReadFull)
+				if fullTotalDominates(fn, call, r) {
+					continue
+				}
 				okAll = false
 				detail = "return at " + c.IPos(r) + " may report success (error operand neither derives from the failed call nor is definitely non-nil)"
 			}
@@ -674,7 +680,7 @@ func (c *Ctx) judgeFailureRegion(fn *ssa.Function, call *ssa.Call, e ssa.Value, 
 				cut[ce.Edge] = true
 			}
 			// the count equals the length of the buffer handed in: nothing is missing
-			if cmp, ok := ce.Cond.(*ssa.BinOp); ok && fullCountEdge(call, cmp, ce.Truth) {
+			if cmp, ok := ce.Cond.(*ssa.BinOp); ok && (fullCountEdge(call, cmp, ce.Truth) || fullTotalEdge(call, cmp, ce.Truth)) {
 				cut[ce.Edge] = true
 			}
 		}
